@@ -149,6 +149,9 @@ func checkC03(e *Env) {
 			switchConsts(r, "call:(*cbor.Decoder).DecodeTextString(*)#0"),
 			"keys written by newSignaturesSection", "keys recognised by parseSignaturesSection")
 	}
+	// collected per-exchange / per-signature objects are fresh in every iteration
+	loopAlias(e, "ALIAS", e.fns("bundle.Read", "bundle.(*Bundle).WriteTo")...)
+	e.R.Floor("ALIAS", 3)
 	e.R.Floor("TABLE", 3)
 	e.R.Floor("FORALL", 14)
 	e.R.Floor("RESULT", 8)
